@@ -523,6 +523,9 @@ func (fc *funcContext) ConstIndex(value LValue) int {
 	ctype := value.Type()
 	for i, lv := range fc.Proto.Constants {
 		if lv.Type() == ctype && lv == value {
+			if n, ok := lv.(LNumber); ok && n == 0 && math.Signbit(float64(n)) != math.Signbit(float64(value.(LNumber))) {
+				continue // 0 and -0 compare equal but are different constants
+			}
 			return i
 		}
 	}
